@@ -9,6 +9,7 @@
 -/
 import IocProofs.Lemmas.MatchPoint
 import IocProofs.Lemmas.MatchExamples
+import IocProofs.Lemmas.SemMatch
 namespace Ioc.C08
 open Ioc Ioc.Tag Ioc.Match
 
@@ -138,5 +139,37 @@ example : survivorsOf pop oneI0qNone [] [(ofString "Qualifier", [ofString "nope"
 example : (resolveAll pop [oneI0qNone, sliceI0q, oneI0]).map (fun l => l.map (·.cands)) = some [[], [1, 2], [2]] := by decide
 example : (resolveAll pop [sliceI0q, namedZ, oneI0]).isNone = true := by decide
 end examples
+
+/-! ### the tie to the code: the narrowing model IS the regenerated program
+
+`Ioc.Progs.filterDependencies` is the syntax tree of `filterDependencies`
+(container/processors/dependency_further_matching_processors.go), re-translated from /repo's source on every run
+(harness/cmd/facts/prog.go) into the MiniGo deep embedding (Ioc.GoSem).  Run by the MiniGo interpreter, with the
+reflection and tag-argument calls answered from the model's population (Ioc.SemMatch.fdFn), it returns exactly what the
+model says — for EVERY population, holder, field kind, tag arguments and candidate list (nil entries included).
+A change of the Go function changes the generated term and this proof is re-checked against it. -/
+
+/-- the regenerated `filterDependencies` computes `Sem.filterDeps` -/
+theorem C08_code_filterDependencies (c : Sem.FDCtx) (cs : List (Option Nat)) :
+    Go.run (Sem.fdPrims c) Progs.filterDependencies [.ref 0 1, .list (cs.map Sem.encOptId)] ()
+      = some (Sem.encFD (Sem.filterDeps c cs), ()) :=
+  Sem.filterDependencies_sem c cs
+
+/-- … and `narrow` (what every C08/C10 theorem above is about) is that result followed by the required/optional decision
+    of the per-property loop: candidates → `.ok`, error → `.fail` for a required point, `.skip` for an optional one -/
+theorem C08_narrow_is_code (byId : Nat → Option Prov) (holder : Nat) (k : Kind) (args : Args) (cs : List (Option Nat)) :
+    ∃ res, Go.run (Sem.fdPrims ⟨byId, holder, k, args⟩) Progs.filterDependencies
+              [.ref 0 1, .list (cs.map Sem.encOptId)] () = some (Sem.encFD res, ()) ∧
+      narrow byId holder k args cs =
+        (match res with
+         | some l => .ok l
+         | none => if isRequired args then .fail else .skip) :=
+  ⟨_, Sem.filterDependencies_sem _ cs, Sem.narrow_eq_filterDeps byId holder k args cs⟩
+
+/-- non-vacuity: on the example population the regenerated program picks the Primary (2) among the survivors 0, 1, 2 -/
+example : Go.run (Sem.fdPrims ⟨byId Ex.pop, 4, .iface 0, []⟩) Progs.filterDependencies
+    [.ref 0 1, .list ([some 0, some 1, some 2, some 4].map Sem.encOptId)] () =
+    some (.tuple [.list [.ref 2 0], .nil], ()) :=
+  (Sem.filterDependencies_sem ⟨byId Ex.pop, 4, .iface 0, []⟩ [some 0, some 1, some 2, some 4]).trans (by rfl)
 
 end Ioc.C08
